@@ -27,6 +27,14 @@ def run_property(prop: str, root: str = None, tier: str = "quick"):
     mod = importlib.import_module(f"rules.{prop}")
     ck = Checker(prop, an)
     mod.run(ck, an, tier)
+    # clauses every property relies on: plain attribute semantics, API defaults, specification tables
+    from rules import common
+    common.engine_assumptions(ck, an)
+    common.defaults_table(ck, an, prop)
+    if prop in ("C01", "C03", "C05", "C13"):
+        common.contract_spec_table(ck, an)
+    if prop in ("C03", "C11", "C12", "C17"):
+        common.allocation_not_shadowed(ck, an, "S0")
     return ck, mod, an
 
 
